@@ -1087,3 +1087,181 @@ package ast
 //@   opt alloc=1
 //@   modifies $catAddN, alloc, RuleEntryMeta.*
 //@   ensures[C12,C16] deletednotstored: e.Deleted ==> $catAddN == old($catAddN)
+
+// =========================================================================================================
+// C09: instances are faithful, isolated copies. $blue = the objects that existed when the clone table was created (the
+// blueprint). Every Clone returns a FRESH object carrying the node's semantic scalars; each child link of the clone is the
+// clone table's image of the origin's child (so sharing inside the blueprint stays sharing inside the instance, and NO link
+// points back into the blueprint); existing table records are never overwritten; nothing that existed before is written
+// (frame obligations over the entry allocation map: the fields of every node type are NOT in modifies).
+// =========================================================================================================
+//@ ghost var $blue array[Ref]bool
+//@ macro func TableInv(t *pkg.CloneTable) bool { return t != nil && t.Records != nil && (forall id string :: has(t.Records, id) ==> t.Records[id] != nil && allocated(t.Records[id]) && t.Records[id].CloneInstance != nil && !$blue[t.Records[id].CloneInstance] && allocated(t.Records[id].CloneInstance)) && (forall p Ref :: $blue[p] ==> allocated(p)) }
+//@ macro func recordsKept(t *pkg.CloneTable) bool { return forall id string :: old(has(t.Records, id)) ==> has(t.Records, id) && t.Records[id] == old(t.Records[id]) && t.Records[id].CloneInstance == old(t.Records[id].CloneInstance) }
+//@ macro func imageOf(t *pkg.CloneTable, id string) Ref { return t.Records[id].CloneInstance }
+//@ extern func ast/unique.NewID() (s)
+//@   nopanic
+//@ modset clonefx = map[string]*pkg.CloneRecord, fresh pkg.CloneRecord.*, alloc, fresh RuleEntry.*, fresh WhenScope.*, fresh ThenScope.*, fresh ThenExpression.*, fresh ThenExpressionList.*, fresh Assignment.*, fresh Expression.*, fresh ExpressionAtom.*, fresh Variable.*, fresh ArrayMapSelector.*, fresh FunctionCall.*, fresh ArgumentList.*, fresh Constant.*
+// the blueprint is closed under child links
+//@ macro func blueClosed() bool { return (forall x *RuleEntry :: $blue[x] ==> (x.WhenScope != nil ==> $blue[x.WhenScope]) && (x.ThenScope != nil ==> $blue[x.ThenScope]))
+//@   && (forall x *WhenScope :: $blue[x] ==> (x.Expression != nil ==> $blue[x.Expression])) && (forall x *ThenScope :: $blue[x] ==> (x.ThenExpressionList != nil ==> $blue[x.ThenExpressionList]))
+//@   && (forall x *ThenExpression :: $blue[x] ==> (x.Assignment != nil ==> $blue[x.Assignment]) && (x.ExpressionAtom != nil ==> $blue[x.ExpressionAtom]))
+//@   && (forall x *Assignment :: $blue[x] ==> (x.Variable != nil ==> $blue[x.Variable]) && (x.Expression != nil ==> $blue[x.Expression]))
+//@   && (forall x *Expression :: $blue[x] ==> (x.LeftExpression != nil ==> $blue[x.LeftExpression]) && (x.RightExpression != nil ==> $blue[x.RightExpression]) && (x.SingleExpression != nil ==> $blue[x.SingleExpression]) && (x.ExpressionAtom != nil ==> $blue[x.ExpressionAtom]))
+//@   && (forall x *ExpressionAtom :: $blue[x] ==> (x.Constant != nil ==> $blue[x.Constant]) && (x.Variable != nil ==> $blue[x.Variable]) && (x.FunctionCall != nil ==> $blue[x.FunctionCall]) && (x.ExpressionAtom != nil ==> $blue[x.ExpressionAtom]) && (x.ArrayMapSelector != nil ==> $blue[x.ArrayMapSelector]))
+//@   && (forall x *Variable :: $blue[x] ==> (x.Variable != nil ==> $blue[x.Variable]) && (x.ArrayMapSelector != nil ==> $blue[x.ArrayMapSelector]))
+//@   && (forall x *ArrayMapSelector :: $blue[x] ==> (x.Expression != nil ==> $blue[x.Expression])) && (forall x *FunctionCall :: $blue[x] ==> (x.ArgumentList != nil ==> $blue[x.ArgumentList])) }
+// ASSUMED (extern) for the two list-shaped nodes (loops over child slices): same clause shape
+//@ extern func (e *ArgumentList) Clone(cloneTable) (c)
+//@   modifies @clonefx
+//@   ensures fresh(c) && !$blue[c] && c.GrlText == e.GrlText && len(c.Arguments) == len(e.Arguments)
+//@   ensures forall k int :: 0 <= k && k < len(e.Arguments) ==> has(cloneTable.Records, e.Arguments[k].AstID) && c.Arguments[k] == imageOf(cloneTable, e.Arguments[k].AstID)
+//@   ensures TableInv(cloneTable) && recordsKept(cloneTable) && (forall p Ref :: old(allocated(p)) ==> allocated(p))
+//@ extern func (e *ThenExpressionList) Clone(cloneTable) (c)
+//@   modifies @clonefx
+//@   ensures fresh(c) && !$blue[c] && c.GrlText == e.GrlText && len(c.ThenExpressions) == len(e.ThenExpressions)
+//@   ensures forall k int :: 0 <= k && k < len(e.ThenExpressions) ==> has(cloneTable.Records, e.ThenExpressions[k].AstID) && c.ThenExpressions[k] == imageOf(cloneTable, e.ThenExpressions[k].AstID)
+//@   ensures TableInv(cloneTable) && recordsKept(cloneTable) && (forall p Ref :: old(allocated(p)) ==> allocated(p))
+
+//@ func (e *RuleEntry) Clone(cloneTable) (c)
+//@   serves C09
+//@   opt alloc=1
+//@   requires e != nil
+//@   requires TableInv(cloneTable)
+//@   modifies @clonefx
+//@   ensures[C09] fresh: fresh(c) && !$blue[c]
+//@   ensures[C09] faithful: c.GrlText == e.GrlText && c.RuleName == e.RuleName && c.RuleDescription == e.RuleDescription && c.Salience == e.Salience && c.Deleted == e.Deleted && !c.Retracted
+//@   ensures[C09] children: (e.WhenScope == nil ==> c.WhenScope == nil) && (e.WhenScope != nil ==> has(cloneTable.Records, e.WhenScope.AstID) && c.WhenScope == imageOf(cloneTable, e.WhenScope.AstID)) && (e.ThenScope == nil ==> c.ThenScope == nil) && (e.ThenScope != nil ==> has(cloneTable.Records, e.ThenScope.AstID) && c.ThenScope == imageOf(cloneTable, e.ThenScope.AstID))
+//@   ensures[C09] tableinv: TableInv(cloneTable)
+//@   ensures[C09] recordskept: recordsKept(cloneTable)
+//@   ensures allocmono: forall p Ref :: old(allocated(p)) ==> allocated(p)
+
+//@ func (e *WhenScope) Clone(cloneTable) (c)
+//@   serves C09
+//@   opt alloc=1
+//@   requires e != nil
+//@   requires TableInv(cloneTable)
+//@   modifies @clonefx
+//@   ensures[C09] fresh: fresh(c) && !$blue[c]
+//@   ensures[C09] faithful: c.GrlText == e.GrlText
+//@   ensures[C09] children: (e.Expression == nil ==> c.Expression == nil) && (e.Expression != nil ==> has(cloneTable.Records, e.Expression.AstID) && c.Expression == imageOf(cloneTable, e.Expression.AstID))
+//@   ensures[C09] tableinv: TableInv(cloneTable)
+//@   ensures[C09] recordskept: recordsKept(cloneTable)
+//@   ensures allocmono: forall p Ref :: old(allocated(p)) ==> allocated(p)
+
+//@ func (e *ThenScope) Clone(cloneTable) (c)
+//@   serves C09
+//@   opt alloc=1
+//@   requires e != nil
+//@   requires TableInv(cloneTable)
+//@   modifies @clonefx
+//@   ensures[C09] fresh: fresh(c) && !$blue[c]
+//@   ensures[C09] faithful: c.GrlText == e.GrlText
+//@   ensures[C09] children: (e.ThenExpressionList == nil ==> c.ThenExpressionList == nil) && (e.ThenExpressionList != nil ==> has(cloneTable.Records, e.ThenExpressionList.AstID) && c.ThenExpressionList == imageOf(cloneTable, e.ThenExpressionList.AstID))
+//@   ensures[C09] tableinv: TableInv(cloneTable)
+//@   ensures[C09] recordskept: recordsKept(cloneTable)
+//@   ensures allocmono: forall p Ref :: old(allocated(p)) ==> allocated(p)
+
+//@ func (e *ThenExpression) Clone(cloneTable) (c)
+//@   serves C09
+//@   opt alloc=1
+//@   requires e != nil
+//@   requires TableInv(cloneTable)
+//@   modifies @clonefx
+//@   ensures[C09] fresh: fresh(c) && !$blue[c]
+//@   ensures[C09] faithful: c.GrlText == e.GrlText
+//@   ensures[C09] children: (e.Assignment == nil ==> c.Assignment == nil) && (e.Assignment != nil ==> has(cloneTable.Records, e.Assignment.AstID) && c.Assignment == imageOf(cloneTable, e.Assignment.AstID)) && (e.ExpressionAtom == nil ==> c.ExpressionAtom == nil) && (e.ExpressionAtom != nil ==> has(cloneTable.Records, e.ExpressionAtom.AstID) && c.ExpressionAtom == imageOf(cloneTable, e.ExpressionAtom.AstID))
+//@   ensures[C09] tableinv: TableInv(cloneTable)
+//@   ensures[C09] recordskept: recordsKept(cloneTable)
+//@   ensures allocmono: forall p Ref :: old(allocated(p)) ==> allocated(p)
+
+//@ func (e *Assignment) Clone(cloneTable) (c)
+//@   serves C09
+//@   opt alloc=1
+//@   requires e != nil
+//@   requires TableInv(cloneTable)
+//@   modifies @clonefx
+//@   ensures[C09] fresh: fresh(c) && !$blue[c]
+//@   ensures[C09] faithful: c.GrlText == e.GrlText && c.IsAssign == e.IsAssign && c.IsPlusAssign == e.IsPlusAssign && c.IsMinusAssign == e.IsMinusAssign && c.IsDivAssign == e.IsDivAssign && c.IsMulAssign == e.IsMulAssign
+//@   ensures[C09] children: (e.Variable == nil ==> c.Variable == nil) && (e.Variable != nil ==> has(cloneTable.Records, e.Variable.AstID) && c.Variable == imageOf(cloneTable, e.Variable.AstID)) && (e.Expression == nil ==> c.Expression == nil) && (e.Expression != nil ==> has(cloneTable.Records, e.Expression.AstID) && c.Expression == imageOf(cloneTable, e.Expression.AstID))
+//@   ensures[C09] tableinv: TableInv(cloneTable)
+//@   ensures[C09] recordskept: recordsKept(cloneTable)
+//@   ensures allocmono: forall p Ref :: old(allocated(p)) ==> allocated(p)
+
+//@ func (e *Expression) Clone(cloneTable) (c)
+//@   serves C09
+//@   opt alloc=1
+//@   requires e != nil
+//@   requires TableInv(cloneTable)
+//@   modifies @clonefx
+//@   ensures[C09] fresh: fresh(c) && !$blue[c]
+//@   ensures[C09] faithful: c.GrlText == e.GrlText && c.Operator == e.Operator && c.Negated == e.Negated
+//@   ensures[C09] children: (e.LeftExpression == nil ==> c.LeftExpression == nil) && (e.LeftExpression != nil ==> has(cloneTable.Records, e.LeftExpression.AstID) && c.LeftExpression == imageOf(cloneTable, e.LeftExpression.AstID)) && (e.RightExpression == nil ==> c.RightExpression == nil) && (e.RightExpression != nil ==> has(cloneTable.Records, e.RightExpression.AstID) && c.RightExpression == imageOf(cloneTable, e.RightExpression.AstID)) && (e.SingleExpression == nil ==> c.SingleExpression == nil) && (e.SingleExpression != nil ==> has(cloneTable.Records, e.SingleExpression.AstID) && c.SingleExpression == imageOf(cloneTable, e.SingleExpression.AstID)) && (e.ExpressionAtom == nil ==> c.ExpressionAtom == nil) && (e.ExpressionAtom != nil ==> has(cloneTable.Records, e.ExpressionAtom.AstID) && c.ExpressionAtom == imageOf(cloneTable, e.ExpressionAtom.AstID))
+//@   ensures[C09] tableinv: TableInv(cloneTable)
+//@   ensures[C09] recordskept: recordsKept(cloneTable)
+//@   ensures allocmono: forall p Ref :: old(allocated(p)) ==> allocated(p)
+
+//@ func (e *ExpressionAtom) Clone(cloneTable) (c)
+//@   serves C09
+//@   opt alloc=1
+//@   requires e != nil
+//@   requires TableInv(cloneTable)
+//@   modifies @clonefx
+//@   ensures[C09] fresh: fresh(c) && !$blue[c]
+//@   ensures[C09] faithful: c.GrlText == e.GrlText && c.VariableName == e.VariableName && c.Negated == e.Negated
+//@   ensures[C09] children: (e.Constant == nil ==> c.Constant == nil) && (e.Constant != nil ==> has(cloneTable.Records, e.Constant.AstID) && c.Constant == imageOf(cloneTable, e.Constant.AstID)) && (e.Variable == nil ==> c.Variable == nil) && (e.Variable != nil ==> has(cloneTable.Records, e.Variable.AstID) && c.Variable == imageOf(cloneTable, e.Variable.AstID)) && (e.FunctionCall == nil ==> c.FunctionCall == nil) && (e.FunctionCall != nil ==> has(cloneTable.Records, e.FunctionCall.AstID) && c.FunctionCall == imageOf(cloneTable, e.FunctionCall.AstID)) && (e.ExpressionAtom == nil ==> c.ExpressionAtom == nil) && (e.ExpressionAtom != nil ==> has(cloneTable.Records, e.ExpressionAtom.AstID) && c.ExpressionAtom == imageOf(cloneTable, e.ExpressionAtom.AstID)) && (e.ArrayMapSelector == nil ==> c.ArrayMapSelector == nil) && (e.ArrayMapSelector != nil ==> has(cloneTable.Records, e.ArrayMapSelector.AstID) && c.ArrayMapSelector == imageOf(cloneTable, e.ArrayMapSelector.AstID))
+//@   ensures[C09] tableinv: TableInv(cloneTable)
+//@   ensures[C09] recordskept: recordsKept(cloneTable)
+//@   ensures allocmono: forall p Ref :: old(allocated(p)) ==> allocated(p)
+
+//@ func (e *Variable) Clone(cloneTable) (c)
+//@   serves C09
+//@   opt alloc=1
+//@   requires e != nil
+//@   requires TableInv(cloneTable)
+//@   modifies @clonefx
+//@   ensures[C09] fresh: fresh(c) && !$blue[c]
+//@   ensures[C09] faithful: c.GrlText == e.GrlText && c.Name == e.Name
+//@   ensures[C09] children: (e.Variable == nil ==> c.Variable == nil) && (e.Variable != nil ==> has(cloneTable.Records, e.Variable.AstID) && c.Variable == imageOf(cloneTable, e.Variable.AstID)) && (e.ArrayMapSelector == nil ==> c.ArrayMapSelector == nil) && (e.ArrayMapSelector != nil ==> has(cloneTable.Records, e.ArrayMapSelector.AstID) && c.ArrayMapSelector == imageOf(cloneTable, e.ArrayMapSelector.AstID))
+//@   ensures[C09] tableinv: TableInv(cloneTable)
+//@   ensures[C09] recordskept: recordsKept(cloneTable)
+//@   ensures allocmono: forall p Ref :: old(allocated(p)) ==> allocated(p)
+
+//@ func (e *ArrayMapSelector) Clone(cloneTable) (c)
+//@   serves C09
+//@   opt alloc=1
+//@   requires e != nil
+//@   requires TableInv(cloneTable)
+//@   modifies @clonefx
+//@   ensures[C09] fresh: fresh(c) && !$blue[c]
+//@   ensures[C09] faithful: c.GrlText == e.GrlText
+//@   ensures[C09] children: (e.Expression == nil ==> c.Expression == nil) && (e.Expression != nil ==> has(cloneTable.Records, e.Expression.AstID) && c.Expression == imageOf(cloneTable, e.Expression.AstID))
+//@   ensures[C09] tableinv: TableInv(cloneTable)
+//@   ensures[C09] recordskept: recordsKept(cloneTable)
+//@   ensures allocmono: forall p Ref :: old(allocated(p)) ==> allocated(p)
+
+//@ func (e *FunctionCall) Clone(cloneTable) (c)
+//@   serves C09
+//@   opt alloc=1
+//@   requires e != nil
+//@   requires TableInv(cloneTable)
+//@   modifies @clonefx
+//@   ensures[C09] fresh: fresh(c) && !$blue[c]
+//@   ensures[C09] faithful: c.GrlText == e.GrlText && c.FunctionName == e.FunctionName
+//@   ensures[C09] children: (e.ArgumentList == nil ==> c.ArgumentList == nil) && (e.ArgumentList != nil ==> has(cloneTable.Records, e.ArgumentList.AstID) && c.ArgumentList == imageOf(cloneTable, e.ArgumentList.AstID))
+//@   ensures[C09] tableinv: TableInv(cloneTable)
+//@   ensures[C09] recordskept: recordsKept(cloneTable)
+//@   ensures allocmono: forall p Ref :: old(allocated(p)) ==> allocated(p)
+
+//@ func (e *Constant) Clone(cloneTable) (c)
+//@   serves C09
+//@   opt alloc=1
+//@   requires e != nil
+//@   requires TableInv(cloneTable)
+//@   modifies @clonefx
+//@   ensures[C09] fresh: fresh(c) && !$blue[c]
+//@   ensures[C09] faithful: c.GrlText == e.GrlText && c.Value == e.Value
+//@   ensures[C09] tableinv: TableInv(cloneTable)
+//@   ensures[C09] recordskept: recordsKept(cloneTable)
+//@   ensures allocmono: forall p Ref :: old(allocated(p)) ==> allocated(p)
+
